@@ -2,6 +2,7 @@
 import itertools
 import json
 import os
+import re
 import subprocess
 import time
 from concurrent.futures import ThreadPoolExecutor
@@ -496,6 +497,21 @@ def numeric_cases(rng):
     return out
 
 
+_OVERFLOW_MSG = re.compile(r"(Multiplication|Addition|Subtraction|Division)(%20| )overflowed")
+_LONG_NUM = re.compile(r"(?:[0-9][,.]?){12,}")
+
+
+def decimal_overflow(case_line, observed):
+    """True iff the observation is rust_decimal's arithmetic-overflow panic AND the input carries a 12+ digit literal."""
+    if not _OVERFLOW_MSG.search(observed):
+        return False
+    try:
+        text = " ".join(dec(w.split("=", 1)[-1]) for w in case_line.split(" "))
+    except Exception:
+        text = case_line
+    return bool(_LONG_NUM.search(text))
+
+
 # ------------------------------------------------------------------------------------------------
 # running the harness resiliently (a crash of hx itself is an observation, not a machinery failure)
 
@@ -761,6 +777,11 @@ class Runner:
             if info.get("out_of_range"):
                 chk.count("out-of-range:%s:%s" % (mode, st))
                 continue
+            if decimal_overflow(line, st + " " + stderr):
+                # rust_decimal's own overflow panic on an input carrying a literal of 12+ digits (random / mutated text):
+                # the numbers left the representable range, which the property excludes; recorded, not judged
+                chk.count("out-of-range(detected):%s" % mode)
+                continue
             chk.oracle_failures += 1
             chk.violation("okane %s (%s): %s %s" % (info.get("cmd"), mode, st, stderr.strip().splitlines()[0][:160] if stderr.strip() else ""),
                           dict(info, stream=stream, mode=mode, case=line, observed=rec,
@@ -950,12 +971,15 @@ def run(chk):
                                   "P 2024/01/01 日本 1 円\n", "P  2024/01/01  EUR  1.1  USD\n", "P 2024/01/01 EUR 1.1 USD\n" * 300]
     pdbs += [gen_random_text(rng) for _ in range(150 if quick else 3000)]
     pdbs += [mutate(rng, pdb_valid) for _ in range(150 if quick else 3000)]
+    # 10 EUR x MAX96 USD/EUR leaves the representable range (rust_decimal panics "Multiplication overflowed"):
+    # outside the property's range clause, recorded and not judged
+    pdb_over = {"P 2024/01/01 EUR %d USD\n" % MAX96}
     for t in pdbs:
         fw = "root=main.ledger main.ledger=%s prices.db=%s" % (enc(small), enc(t))
         for nm, argv in (("pdb-balance-x", ("balance", "--price-db", "@/prices.db", "-X", "USD", "--now", "2024-12-31", "@")),
                          ("pdb-balance-hist", ("balance", "--price-db", "@/prices.db", "-X", "EUR", "--historical", "@")),
                          ("pdb-eval-x", ("primitive", "eval", "--price-db", "@/prices.db", "--date", "2024-06-01", "-X", "USD", "-f", "@", "1 ACME"))):
-            R.add_cli("pricedb", nm, fw, {"nontrivial": bool(t)}, also_cmd=True, argv=argv)
+            R.add_cli("pricedb", nm, fw, {"nontrivial": bool(t), "out_of_range": t in pdb_over}, also_cmd=True, argv=argv)
     exprs = ["1 USD + 2 USD", "(1 EUR * 3)", "1 +", ")", "((", "1 USD / 0", "1 / 0", "10 EUR", "ACME", "1 ACME", "-", "--1", "1,23", "",
              nested(MAX_NEST), "1 USD " * 50, "1 日本", "(1 USD + 2 EUR) * 2", "1 USD * 1 USD", "0 / 0", str(MAX96) + " USD", "1 USD;"]
     exprs += ["".join(rng.choice(["1", "2.5", " ", "(", ")", "+", "-", "*", "/", "USD", "EUR", "ACME", ",", "."]) for _ in range(rng.randint(1, 12)))
